@@ -3,7 +3,8 @@
 patch=$(readlink -f "$1"); shift
 wt=$(mktemp -d /tmp/kvwp.XXXXXX)
 git -C /repo worktree add -q --detach "$wt" HEAD
-cleanup() { git -C /repo worktree remove --force "$wt" 2>/dev/null || rm -rf "$wt"; }
+out=$(mktemp -d /tmp/kvout.XXXXXX)     # evidence and replays of a patched tree never land in /verif
+cleanup() { git -C /repo worktree remove --force "$wt" 2>/dev/null || rm -rf "$wt"; rm -rf "$out"; }
 trap cleanup EXIT
 git -C "$wt" apply "$patch" || exit 3
-KV_REPO="$wt" "$@"
+KV_REPO="$wt" KV_OUT="$out" "$@"
